@@ -62,7 +62,7 @@ def main():
             finally:
                 sh("git -C /repo checkout -- .")
         else:
-            rc, out = sh("VERIF_REPO=%s ./check %s %s" % (wt, prop, tier), cwd=V, timeout=7200)
+            rc, out = sh("VERIF_EVIDENCE_DIR=%s/seed_evidence VERIF_REPO=%s ./check %s %s" % (wt, wt, prop, tier), cwd=V, timeout=7200)
         res["check_exit"] = rc
         vl = [l for l in out.splitlines() if l.startswith("VIOLATION")]
         res["violation_line"] = vl[0] if vl else None
@@ -93,9 +93,7 @@ def main():
     # after a run against a scratch repo, restore generated tables from /repo for everyone else
     if not in_repo:
         sh("./check %s quick >/dev/null 2>&1" % prop, cwd=V, timeout=3600)
-    # the evidence file must describe a run on /repo itself, never a seeded run
-    if ev_backup is not None:
-        open(ev, "w").write(ev_backup)
+    # seeded runs write their evidence under the scratch worktree (VERIF_EVIDENCE_DIR); evidence/ only ever holds runs on /repo
     return 0
 
 
